@@ -164,9 +164,12 @@ Fixpoint remove_first (a : ustring) (ps : list (node * node)) : list (node * nod
   | [] => []
   | (k, v) :: r => if key_is a k then r else (k, v) :: remove_first a r
   end.
+(* the mapping helpers iterate `for key_node, value_node in self.yaml_node.value`: on a node whose value is an empty string or an
+   empty list there is nothing to iterate, so they are no-ops; on other non-mappings the unpacking fails *)
 Definition remove_attribute (a : ustring) (n : node) : result node :=
   match n with
   | Map t ps m => Ok (Map t (remove_first a ps) m)
+  | Scalar _ [] _ | Seq _ [] _ => Ok n
   | _ => Err (EPy PyOther)
   end.
 
@@ -180,6 +183,7 @@ Fixpoint rename_first (a b : ustring) (ps : list (node * node)) : list (node * n
 Definition rename_attribute (a b : ustring) (n : node) : result node :=
   match n with
   | Map t ps m => Ok (Map t (rename_first a b ps) m)
+  | Scalar _ [] _ | Seq _ [] _ => Ok n
   | _ => Err (EPy PyOther)
   end.
 
@@ -208,6 +212,7 @@ Definition rewrite_keys (x y : N) (n : node) : result node :=
   match n with
   | Map t ps m => if all_scalar_keys ps then Ok (Map t (map_keys (replace_char x y) ps) m)
                   else Err (EPy PyAttributeError)      (* list has no .replace *)
+  | Scalar _ [] _ | Seq _ [] _ => Ok n
   | _ => Err (EPy PyOther)
   end.
 Definition unders_to_dashes_in_keys := rewrite_keys 95 45.
